@@ -14,7 +14,9 @@ RULE = ('Client / AsyncClient on the real engine.io client object, connected '
         'BINARY_EVENT frames (ids None, 0, any; function, catch-all and '
         'class-based handlers, sync or coroutine, generated return values) '
         'and ACK / BINARY_ACK frames (id right, repeated, unknown incl. 0, '
-        'outstanding on a different namespace) interleaved with client '
+        'outstanding on a different namespace, a duplicate processed while '
+        'the callback still runs, callbacks and handlers that raise) '
+        'interleaved with client '
         'emit(callback) and call() on several namespaces. Oracle: exactly one '
         'handler invocation with the sent args per event with a responsible '
         'target, none otherwise; exactly one ACK (namespace, id, packed '
